@@ -11,6 +11,14 @@ CONSTANTS
   AtomicAsk = TRUE
   WithFailover = FALSE
   FixRefreshOnDialError = TRUE
+  StepwiseRefresh = FALSE
+  ClearBeforeFill = FALSE
+  MaxTicks = 0
+  LazyConnect = FALSE
+  AsyncRedirectDial = FALSE
+  TrackOrder = FALSE
+  WithDemotion = FALSE
+  ReadonlyEverywhere = TRUE
 INVARIANTS EqualsReference EffectOnce SingleCopy CopyIsReference NoLostKey FirstHopIsOwner
 CONSTRAINT HopBound
 CHECK_DEADLOCK FALSE
